@@ -110,7 +110,7 @@ func init() {
 		Doc: "an index returned by a search primitive is added to a cursor only if the primitive searched the suffix starting at that cursor",
 		Run: ruleOffsetBase})
 	register(&Rule{Name: "TOKEN-KINDS", Floor: 2,
-		Doc: "every token addRule stores into a variable pattern has a kind that variable.index's switch handles (backs the exemption of its default panic)",
+		Doc: "every token addRule stores into a variable pattern has a kind that variable.index's switch handles (backs the exemption of its default panic) (decided on values: kind-by-kind reachability of the append and of variable.index's panic, so a switch, an if chain and a bit-mask test are alike)",
 		Run: ruleTokenKinds})
 	register(&Rule{Name: "NIL-MAP-WRITE", Floor: 2,
 		Doc: "every map-typed field of routing state that is written through (m[k]=v) is initialised by every constructor of its struct or guarded by a nil test",
